@@ -5,6 +5,7 @@ package ir
 
 import (
 	"fmt"
+	"math"
 )
 
 // CloneModuleForOverrides creates a deep enough copy of a module for ProcessOverrides
@@ -145,9 +146,10 @@ func ProcessOverrides(module *Module, constants PipelineConstants) error {
 		// Value is nil — writer should use Init (GlobalExpression) path.
 		ch := ConstantHandle(len(module.Constants))
 		module.Constants = append(module.Constants, Constant{
-			Name: ov.Name,
-			Type: ov.Ty,
-			Init: geHandle,
+			Name:  ov.Name,
+			Type:  ov.Ty,
+			Value: literalScalarValue(lit),
+			Init:  geHandle,
 		})
 		overrideToConstant[OverrideHandle(i)] = ch
 	}
@@ -247,6 +249,27 @@ func evaluateGlobalExprAsFloat(module *Module, handle ExpressionHandle, resolved
 	default:
 		return 0, fmt.Errorf("cannot evaluate global expression of kind %T", k)
 	}
+}
+
+// literalScalarValue gives the inline constant value of a resolved override
+// literal, for writers that read Constant.Value rather than Constant.Init.
+func literalScalarValue(lit Literal) ConstantValue {
+	switch v := lit.Value.(type) {
+	case LiteralBool:
+		if v {
+			return ScalarValue{Kind: ScalarBool, Bits: 1}
+		}
+		return ScalarValue{Kind: ScalarBool, Bits: 0}
+	case LiteralI32:
+		return ScalarValue{Kind: ScalarSint, Bits: uint64(uint32(v))}
+	case LiteralU32:
+		return ScalarValue{Kind: ScalarUint, Bits: uint64(v)}
+	case LiteralF32:
+		return ScalarValue{Kind: ScalarFloat, Bits: uint64(math.Float32bits(float32(v)))}
+	case LiteralF64:
+		return ScalarValue{Kind: ScalarFloat, Bits: math.Float64bits(float64(v))}
+	}
+	return nil
 }
 
 // LiteralToFloat converts a LiteralValue to float64.
